@@ -456,7 +456,8 @@ func flips(r *mc.Run, v *volFile, rc rec) {
 	}
 	dataStart := types.NeedleHeaderSize + 4
 	xors := []int{1, 2, 4, 8, 16, 32, 64, 128}
-	if !r.Quick() && p.DataLen <= 9 {
+	if !r.Quick() && p.DataLen <= 9 && p.NameLen == 0 && p.MimeLen == 0 && p.PairsLen == 0 {
+		// thorough: every one of the 255 alterations of every data byte, on the records without optional field bytes
 		xors = xors[:0]
 		for x := 1; x < 256; x++ {
 			xors = append(xors, x)
